@@ -1,3 +1,6 @@
 // C02 units "vector"/"portable": vector<int> suites
 #include "c02_vec.h"
 C02_VEC_SUITES(int, int)
+// element types with mixed triviality (kept in this TU: vector<int> is the cheapest one to compile)
+C02_VEC_SUITES(c02::TrivAssign, trivassign)
+VF_SUITE(random_trivlife, c02::rand_count, c02::rand_run_t<c02::TrivLife>)
